@@ -3,7 +3,7 @@ state (mostly-valid calls, plus calls that violate exactly one precondition); ev
 comes from the one `random.Random` passed in, so a (seed, case) pair replays exactly."""
 from ir_world import REL, REL_PARENT, REL_CHILD, tok_of_s, tok_of_val
 
-NAMES = ['a', 'A', 'b', 'B', 'ab', 'Ab', 'aB', 'a[0]', 'a_0_', '&x', '&X', 'x-y', '1a', 'a b', 'c', 'C',
+NAMES = ['', 'a', 'A', 'b', 'B', 'ab', 'Ab', 'aB', 'a[0]', 'a_0_', '&x', '&X', 'x-y', '1a', 'a b', 'c', 'C',
          'inst', 'INST', 'n1', 'N1']
 IDENTS = ['a', 'A', 'b', 'ab', 'AB', 'Ab', '&x', '&X', 'x_1', 'X_1', '1a', 'a-b', '&', 'a b', 'c', 'C', 'a\n', 'B_2\n']
 USER_KEYS = ['k', 'K', 'prop', 'EDIF.rename']
